@@ -115,19 +115,31 @@ def rule_maps(chk, cls):
                 for t in d.targets:
                     if isinstance(t, ast.Subscript) and U(t.value) == 'self.properties':
                         dels.append((d, U(t.slice)))
+        gdel = C.build_cfg(fn) if dels else None
         for site, key in dels:
             for m in MAPS:
                 n += 1
-                ok = False
+                drops = []
                 for c in M.calls(fn):
                     if isinstance(c.func, ast.Attribute) and c.func.attr in ('pop', 'remove', 'discard') \
                             and U(c.func.value) == 'self.' + m and c.args and U(c.args[0]) == key:
-                        ok = True
+                        drops.append(c)
                 for d in ast.walk(fn):
                     if isinstance(d, ast.Delete):
                         for t in d.targets:
                             if isinstance(t, ast.Subscript) and U(t.value) == 'self.' + m and U(t.slice) == key:
-                                ok = True
+                                drops.append(d)
+                # on every path on which the property is deleted: the entry is dropped before (dominates) or afterwards (must-pass to the exit)
+                def anchor(d):
+                    # a drop guarded only by "is the key in this very map" is as good as unconditional: the guard is the anchor
+                    st = stmt_of(d)
+                    g_ = M.enclosing(st, (ast.If,))
+                    if g_ is not None and st in g_.body and U(g_.test).replace(' ', '') in ('%sinself.%s' % (key, m), 'self.%s.has_key(%s)' % (m, key)):
+                        return g_
+                    return st
+                sn = gdel.node_of(stmt_of(site))
+                dn = [x for x in (gdel.node_of(anchor(d)) for d in drops) if x is not None]
+                ok = bool(dn) and sn is not None and (any(gdel.dominates(d, sn) for d in dn) or gdel.must_pass(sn, gdel.exit, dn))
                 chk.decide(ok, 'maps-in-step:delete', '%s:%s' % (name, m), node=site, file=PA, func=name,
                            detail_bad='key %s is removed from self.properties but its entry in self.%s is kept '
                                       '(a property re-added later inherits it)' % (key, m),
@@ -525,6 +537,122 @@ def rule_tag_scans(chk, cls):
                                   'act on (the array need not be aligned when this is called)' % U(it), detail_ok='range(<number of particles>)')
     chk.floor('loops testing the tag of each particle', n, 2)
 
+CARRAY_CTORS = {'IntArray', 'UIntArray', 'LongArray', 'FloatArray', 'DoubleArray'}
+
+
+def _fresh_expr(e, fn, meths, seen, at=None, g=None):
+    """the value is storage created in this call: a carray constructor, a helper of the class that returns only such storage, or a
+    local every definition of which *reaching the use* is"""
+    if isinstance(e, ast.Call):
+        nm = M.call_name(e) or ''
+        if nm in CARRAY_CTORS:
+            return True
+        if nm.startswith('self.') and nm[5:] in meths and nm[5:] not in seen:
+            h = meths[nm[5:]]
+            gh = C.build_cfg(h)
+            rets = [r for r in ast.walk(h) if isinstance(r, ast.Return) and r.value is not None]
+            return bool(rets) and all(_fresh_expr(r.value, h, meths, seen | {nm[5:]}, at=r, g=gh) for r in rets)
+        return False
+    if isinstance(e, ast.Name):
+        if e.id in set(M.arg_names(fn)):
+            return False
+        defs = []
+        for a in ast.walk(fn):
+            if isinstance(a, ast.Assign) and any(isinstance(t, ast.Name) and t.id == e.id for t in a.targets):
+                defs.append(a)
+            elif isinstance(a, ast.AnnAssign) and isinstance(a.target, ast.Name) and a.target.id == e.id and a.value is not None:
+                defs.append(a)
+            elif isinstance(a, (ast.For, ast.AugAssign)) and any(isinstance(x, ast.Name) and x.id == e.id for x in ast.walk(a.target)):
+                defs.append(a)
+        if g is not None and at is not None:
+            an = g.node_of(at)
+            dn = dict((g.node_of(d), d) for d in defs)
+            dn.pop(None, None)
+            if an is not None:
+                live = []
+                for d_id, d in dn.items():
+                    if any(sx == an or an in g.reachable(sx, avoid=set(dn)) for sx in g.succ[d_id]):
+                        live.append(d)
+                defs = live
+        return bool(defs) and all(isinstance(d, (ast.Assign, ast.AnnAssign)) and _fresh_expr(d.value, fn, meths, seen, at=d, g=g) for d in defs)
+    return False
+
+
+def rule_storage(chk, cls):
+    """The arrays behind properties and constants belong to this particle array alone: whatever is stored into self.properties[..] /
+    self.constants[..] is storage created by the call that stores it (never a caller's or another array's carray)."""
+    meths = M.methods(cls)
+    n = 0
+    for name, fn in sorted(meths.items()):
+        for a in ast.walk(fn):
+            if not isinstance(a, ast.Assign):
+                continue
+            for t in a.targets:
+                if isinstance(t, ast.Subscript) and U(t.value) in ('self.properties', 'self.constants'):
+                    n += 1
+                    ok = _fresh_expr(a.value, fn, meths, frozenset(), at=a, g=C.build_cfg(fn))
+                    chk.decide(ok, 'storage-owned', '%s:%s[%s]#%d' % (name, U(t.value)[5:], U(t.slice), n), node=a, file=PA, func=name,
+                               detail_bad='`%s` is stored into %s without being created here: the particle array then shares its storage with the caller / another array, '
+                                          'and a write through either changes both' % (U(a.value), U(t.value)),
+                               detail_ok='storage created by this call (%s)' % U(a.value)[:60])
+                elif U(t) in ('self.properties', 'self.constants') and isinstance(a.value, ast.Dict):
+                    for v in a.value.values:
+                        n += 1
+                        chk.decide(_fresh_expr(v, fn, meths, frozenset()), 'storage-owned', '%s:%s-literal#%d' % (name, U(t)[5:], n), node=a, file=PA, func=name,
+                                   detail_bad='`%s` placed in the table is not created here' % U(v), detail_ok='fresh carray')
+    chk.floor('stores into the property / constant tables', n, 8)
+
+
+def _reaching_defs(fn, g, var, at):
+    defs = []
+    for a in ast.walk(fn):
+        if isinstance(a, ast.Assign) and any(isinstance(t, ast.Name) and t.id == var for t in a.targets):
+            defs.append(a)
+        elif isinstance(a, ast.AnnAssign) and isinstance(a.target, ast.Name) and a.target.id == var and a.value is not None:
+            defs.append(a)
+    an = g.node_of(at)
+    dn = dict((g.node_of(d), d) for d in defs)
+    dn.pop(None, None)
+    return [d for d_id, d in dn.items() if any(sx == an or an in g.reachable(sx, avoid=set(dn)) for sx in g.succ[d_id])]
+
+
+def rule_sorted_removal(chk, cls):
+    """carray.remove(indices, input_sorted=1, stride) trusts its caller: whenever a method passes a true `input_sorted`, the index
+    array must have been sorted by this call on every path (callers may hand over indices in any order)."""
+    n = 0
+    for name, fn in sorted(M.methods(cls).items()):
+        g = None
+        for c in M.calls(fn):
+            if not (isinstance(c.func, ast.Attribute) and c.func.attr == 'remove' and len(c.args) >= 2):
+                continue
+            flag = c.args[1]
+            n += 1
+            if isinstance(flag, ast.Constant) and not flag.value:
+                chk.holds('sorted-flag-is-true', '%s:%s' % (name, U(c.args[0])), node=c, file=PA, func=name, detail='input_sorted is false: the carray sorts the indices itself')
+                continue
+            g = g or C.build_cfg(fn)
+            arg = c.args[0]
+            st = stmt_of(c)
+
+            def is_sorted(e, at, depth=0):
+                if isinstance(e, ast.Call) and (M.call_name(e) or '') in ('numpy.sort', 'np.sort', 'sorted', 'numpy.unique', 'np.unique'):
+                    return True
+                if isinstance(e, ast.Name) and depth < 4:
+                    an = g.node_of(at)
+                    for c2 in M.calls(fn):           # sorted in place before the use, on every path
+                        if isinstance(c2.func, ast.Attribute) and c2.func.attr == 'sort' and U(c2.func.value) == e.id and not c2.args:
+                            sn2 = g.node_of(stmt_of(c2))
+                            if sn2 is not None and an is not None and sn2 != an and g.dominates(sn2, an):
+                                return True
+                    ds = _reaching_defs(fn, g, e.id, at)
+                    return bool(ds) and all(is_sorted(d.value, d, depth + 1) for d in ds)
+                return False
+            ok = is_sorted(arg, st)
+            chk.decide(ok, 'sorted-flag-is-true', '%s:%s' % (name, U(arg)), node=c, file=PA, func=name,
+                       detail_bad='`%s` tells the carray that `%s` is sorted, but on some path it is not the result of a sort made here: indices handed over in another '
+                                  'order remove the wrong particles' % (U(c), U(arg)), detail_ok='%s is numpy.sort(...) on every path' % U(arg))
+    chk.floor('remove calls that claim sorted input', n, 1)
+
 
 def main(chk):
     chk.explanation = ('Structural coherence rules over every method of ParticleArray (Cython parse tree lowered to ast): '
@@ -542,6 +670,8 @@ def main(chk):
     rule_pickle(chk, cls)
     rule_replicate(chk, cls)
     rule_tag_scans(chk, cls)
+    rule_storage(chk, cls)
+    rule_sorted_removal(chk, cls)
     # align_particles keeps its index array a permutation (rule shared with C16, which relies on it after removals)
     import importlib.util
     spec = importlib.util.spec_from_file_location('c16mod', os.path.join(os.path.dirname(os.path.abspath(__file__)), 'c16.py'))
